@@ -1,6 +1,7 @@
 package core
 
 import (
+	"go/token"
 	"go/types"
 
 	"golang.org/x/tools/go/ssa"
@@ -269,6 +270,12 @@ func (x *Explorer) builtin(fr *frame, in ssa.Instruction, ev *Event, resType typ
 		x.tighten(res, 0, true)
 		x.AssumeLEq(res, x.Len(args[0]))
 		x.AssumeLEq(res, x.Len(args[1]))
+		// copy(b[lo:], src): lo + n <= len(b), in the shape a cursor update `pos += n` asks for
+		if d := args[0]; d.Kind == KSlice && d.Args[1].Kind != KNone && d.Args[2].Kind == KNone {
+			if _, isPtr := d.Args[0].Type.Underlying().(*types.Pointer); !isPtr {
+				x.AssumeLEq(x.Bin(token.ADD, x.stripWiden(d.Args[1]), res, types.Typ[types.Int]), x.Len(d.Args[0]))
+			}
+		}
 		return res
 	case "delete":
 		x.epoch = x.next()
